@@ -474,8 +474,30 @@ FEEL_CORPUS = [
 ]
 
 
+def refresh_c_kernel():
+    """cargo does not notice edits of feel-number/decnumber/*.c (the cc build script only declares environment variables as its inputs):
+    when the C sources differ from the ones the harness was last built with, the build output of dmntk-feel-number is dropped."""
+    import glob
+    import hashlib
+    import os
+    import shutil
+    h = hashlib.sha256()
+    for f in sorted(glob.glob(os.path.join(core.REPO, 'feel-number', 'decnumber', '*.[ch]')) + [os.path.join(core.REPO, 'feel-number', 'build.rs')]):
+        h.update(open(f, 'rb').read())
+    stamp = os.path.join(core.TARGET, 'decnumber-sources.sha256')
+    with core.Lock('cargo'):
+        old = open(stamp).read() if os.path.exists(stamp) else None
+        if old != h.hexdigest():
+            if old is not None or core.REPO != '/repo':
+                for d in glob.glob(os.path.join(core.TARGET, '*', 'build', 'dmntk-feel-number-*')):
+                    shutil.rmtree(d, ignore_errors=True)
+            os.makedirs(core.TARGET, exist_ok=True)
+            open(stamp, 'w').write(h.hexdigest())
+
+
 def run(ctx):
     ctx.proof_gate()
+    refresh_c_kernel()
     ctx.build_harness()
     fc = ctx.run_impl('feel', [{'e': e} for e, _ in FEEL_CORPUS])
     for (e, want), got in zip(FEEL_CORPUS, fc):
@@ -633,6 +655,7 @@ def run(ctx):
 def replay(ctx, path):
     obj = json.load(open(path))
     case = obj['case']
+    refresh_c_kernel()
     ctx.build_harness()
     if 'expression' in case:
         got = ctx.run_impl('feel', [{'e': case['expression']}])[0]
@@ -646,7 +669,10 @@ def replay(ctx, path):
         print('implementation :', json.dumps(got)[:300])
         print('expected       :', obj.get('model'))
         kind, val = impl_value(case['op'], got)
-    fail = kind in ('bad', 'nonfinite') or str(val) != str(obj.get('model')) and json.dumps(val) != json.dumps(obj.get('model'))
+    want = obj.get('model')
+    if isinstance(want, list) and len(want) == 2 and (isinstance(want[0], list) or want[0] is None):
+        want = want[0]     # modulo: [specification, stepwise]
+    fail = kind in ('bad', 'nonfinite') or json.loads(json.dumps(val)) != want
     print('REPRODUCED' if fail else 'not reproduced')
     return 1 if fail else 0
 
